@@ -4,7 +4,8 @@ NEXT Next
 CONSTANTS
   Fams <- AllFams
   Namings <- NamingsAll
-  UttNames <- UttNames5
+  GlobNamings <- GlobNamingsAll
+  IdNamings <- IdNamingsAll
   Cs = {1, 2}
   Ws = {1, 2, 3}
   PModes <- UnorderedOnly
@@ -25,6 +26,7 @@ CONSTANTS
   ErPairsSmall <- ErPairsFew
   ErPairsTiny <- ErPairsTinyThorough
   ErCostsAll <- ErCostsThorough
+  ErMissUtts = 3
   ErBatches = {1, 2, 100}
   SubLens = {1, 2, 3}
   SubUtts = 3
@@ -46,10 +48,12 @@ INVARIANT TypeOK
 INVARIANT ScheduleFree
 INVARIANT NoClobber
 INVARIANT Naming
+INVARIANT IdUniverse
 INVARIANT AliInverse
 INVARIANT TrnInverse
 INVARIANT CtmInverse
 INVARIANT TgInverse
+INVARIANT ErMergeOK
 INVARIANT ErBatchFree
 INVARIANT ErUniformExact
 INVARIANT SubOK
